@@ -1006,4 +1006,64 @@ theorem filter_le_foldl_memPut (es m : List Ent) (ts : Nat) (h : ∀ e ∈ es, t
     rw [ih _ (fun x hx => h x (List.mem_cons_of_mem _ hx)),
       filter_le_memPut e m ts (h e (List.mem_cons_self ..))]
 
+/-! ## user-level scans (`parseItems`) -/
+
+/-- in non-`AllVersions` mode every yielded item passed the `isDeletedOrExpired` test -/
+theorem parseItems_live (o : IterOpts) (readTs now : Nat) (hall : o.allVersions = false) :
+    (∀ fuel e rest, ∀ x ∈ parseItems.revFill o readTs now fuel e rest,
+        deletedOrExpired x.emeta x.exp now = false) ∧
+    (∀ fuel lk l, ∀ x ∈ parseItems o readTs now fuel lk l,
+        deletedOrExpired x.emeta x.exp now = false) := by
+  have key : ∀ fuel : Nat,
+      (∀ e rest, ∀ x ∈ parseItems.revFill o readTs now fuel e rest,
+        deletedOrExpired x.emeta x.exp now = false) ∧
+      (∀ lk l, ∀ x ∈ parseItems o readTs now fuel lk l,
+        deletedOrExpired x.emeta x.exp now = false) := by
+    intro fuel
+    induction fuel with
+    | zero =>
+      constructor
+      · intro e rest x hx; simp [parseItems.revFill] at hx
+      · intro lk l x hx; simp [parseItems] at hx
+    | succ f ih =>
+      obtain ⟨ih1, ih2⟩ := ih
+      constructor
+      · intro e rest x hx
+        unfold parseItems.revFill at hx
+        split at hx
+        · exact ih2 _ _ x hx
+        · rename_i hlive
+          split at hx
+          · simp only [List.mem_singleton] at hx; subst hx; simpa using hlive
+          · split at hx
+            · exact ih1 _ _ x hx
+            · simp only [List.mem_cons] at hx
+              rcases hx with hx | hx
+              · subst hx; simpa using hlive
+              · exact ih2 _ _ x hx
+      · intro lk l x hx
+        cases l with
+        | nil => simp [parseItems] at hx
+        | cons e rest =>
+          rw [parseItems.eq_3] at hx
+          simp only [hall, Bool.false_eq_true, if_false] at hx
+          split at hx
+          · cases hx
+          split at hx
+          · exact ih2 _ _ x hx
+          split at hx
+          · exact ih2 _ _ x hx
+          split at hx
+          · split at hx
+            · exact ih2 _ _ x hx
+            · split at hx
+              · exact ih2 _ _ x hx
+              · rename_i hlive
+                simp only [List.mem_cons] at hx
+                rcases hx with hx | hx
+                · subst hx; simpa using hlive
+                · exact ih2 _ _ x hx
+          · exact ih1 _ _ x hx
+  exact ⟨fun fuel => (key fuel).1, fun fuel => (key fuel).2⟩
+
 end Badger
